@@ -118,7 +118,7 @@ static std::vector<uint8_t> c14_song(Rng &r)
     return f;
 }
 
-static Hist gen_hist(Rng &r, int force_emu = -1)
+static Hist gen_hist(Rng &r, int force_emu = -1, double song_p = 0.35)
 {
     static const int emus[] = {0, 1, 2, 3, 4, 5, 6, 8};
     Hist h; h.rate = r.pick((const long[]){8000, 22050, 44100, 48000});
@@ -154,7 +154,7 @@ static Hist gen_hist(Rng &r, int force_emu = -1)
         HOp a; a.kind = 17; a.a = 1; a.b = a.c = 0; h.ops.insert(h.ops.begin(), a);
         HOp ch; ch.kind = 18; ch.a = 0; ch.b = r.range(40, 70); ch.c = r.range(7, 14); h.ops.insert(h.ops.begin() + 1 + (long)r.below(3), ch);
     }
-    if(r.chance(0.35))
+    if(r.chance(song_p))
     {   // sequencer part: a song is loaded somewhere in the history and played through opn2_play in a few blocks
         h.song = c14_song(r);
         size_t at = r.below((uint32_t)h.ops.size());
@@ -270,16 +270,18 @@ static void *thread_main(void *arg)
     Rng yr(t->yseed, 31, (uint64_t)t->index);
     pthread_barrier_wait(t->barrier);
     Runner r;
-    auto mark = [&](int begin) { TEvent e; e.ticket = t->ticket->fetch_add(1); e.thread = (uint8_t)t->index; e.begin = (uint8_t)begin; t->events.push_back(e); };
-    mark(1); t->in_call[t->index].store(1); r.open(*t->h); t->in_call[t->index].store(0); mark(0);
+    // the bookkeeping atomics are relaxed on purpose: an acquire/release ticket would order every API call of one thread before the
+    // next call of any other thread and hide from ThreadSanitizer all races that are not caught red-handed
+    auto mark = [&](int begin) { TEvent e; e.ticket = t->ticket->fetch_add(1, std::memory_order_relaxed); e.thread = (uint8_t)t->index; e.begin = (uint8_t)begin; t->events.push_back(e); };
+    mark(1); t->in_call[t->index].store(1, std::memory_order_relaxed); r.open(*t->h); t->in_call[t->index].store(0, std::memory_order_relaxed); mark(0);
     while(!r.done())
     {
         int y = (int)yr.below(10);
         if(y < 4) sched_yield(); else if(y == 4) { struct timespec ts = {0, (long)yr.below(200000)}; nanosleep(&ts, NULL); }
-        mark(1); t->in_call[t->index].store(1);
-        for(int j = 0; j < 8; j++) if(j != t->index && t->in_call[j].load()) t->overlap_with[(size_t)j]++;
+        mark(1); t->in_call[t->index].store(1, std::memory_order_relaxed);
+        for(int j = 0; j < 8; j++) if(j != t->index && t->in_call[j].load(std::memory_order_relaxed)) t->overlap_with[(size_t)j]++;
         r.step();
-        t->in_call[t->index].store(0); mark(0);
+        t->in_call[t->index].store(0, std::memory_order_relaxed); mark(0);
     }
     mark(1); r.close(); mark(0);
     t->out = r.out;
@@ -365,7 +367,8 @@ static void run_case(Case &c)
     // threads (plain: bit-exact comparison; tsan: race reports are collected by the supervisor from stderr)
     {
         int nthreads = r.range(2, 8);
-        std::vector<Hist> hs; for(int i = 0; i < nthreads; i++) hs.push_back(gen_hist(r));
+        std::vector<Hist> hs; for(int i = 0; i < nthreads; i++) hs.push_back(gen_hist(r, -1, 0.7));   // most threads also run a sequencer
+        { int ns = 0; for(int i = 0; i < nthreads; i++) ns += hs[(size_t)i].song.empty() ? 0 : 1; count("threads_with_a_song_in_the_same_case", ns); }
         std::vector<Out> refs;
         bool compare = (g_w.variant != "tsan");
         if(compare) for(int i = 0; i < nthreads; i++) refs.push_back(run_alone(hs[(size_t)i], -1));
